@@ -5,6 +5,7 @@ mod p_config;
 mod p_exec;
 mod p_cli;
 mod p_escape;
+mod p_run;
 
 use std::io::{BufWriter, Write};
 
@@ -22,6 +23,8 @@ fn main() {
         "validate" => p_exec::validate_main(&args[1..], &mut w),
         "unicode" => p_consts::unicode(&args[1..], &mut w),
         "escape" => p_escape::main(&args[1..], &mut w),
+        "run" => p_run::main(&args[1..], &mut w),
+        "crlf-child" => p_run::crlf_child(&args[1..]),
         "consts" => p_consts::main(&args[1..], &mut w),
         x => { eprintln!("unknown subcommand {}", x); std::process::exit(2); }
     }
